@@ -16,8 +16,9 @@ BIG = 70000  # > 64 KiB: pickle protocol 4/5 writes such objects as separate fra
 
 
 def log_exec(line):
-    if EXEC_LOG is not None:
-        fd = os.open(EXEC_LOG, os.O_WRONLY | os.O_APPEND | os.O_CREAT)
+    path = EXEC_LOG or os.environ.get('VERIF_SAVE_LOG')   # the env var reaches spawned workers
+    if path is not None:
+        fd = os.open(path, os.O_WRONLY | os.O_APPEND | os.O_CREAT)
         try:
             os.write(fd, (line + '\n').encode())
         finally:
@@ -85,4 +86,33 @@ class JRes:
     run = _run
 
 
-KINDS = {'pickle': PRes, 'json': JRes}
+@labtech.task(cache=PickleCache())
+class NRes:
+    """a task whose post_init() normalises one of its own parameters (documented use of
+    object.__setattr__ in post_init): `cache_key` was computed from the parameters as given, so a key
+    recomputed later from the task object differs from `task.cache_key`"""
+    idx: int
+    tag: str = '  Mixed Case  '
+
+    def post_init(self):
+        object.__setattr__(self, 'tag', self.tag.strip().lower())
+
+    run = _run
+
+
+def ctx_result(idx, gen, scale):
+    return {'gen': gen, 'scale': scale, 'payload': make_result(idx, gen)}
+
+
+@labtech.task(cache=PickleCache())
+class CRes:
+    """a task whose value depends on the Lab context through lookups with defaults"""
+    idx: int
+
+    def run(self):
+        log_exec(f'X CRes {self.idx}')
+        ctx = self.context or {}
+        return ctx_result(self.idx, ctx.get('gen', GEN), ctx.get('scale', 1))
+
+
+KINDS = {'pickle': PRes, 'json': JRes, 'norm': NRes, 'ctx': CRes}
